@@ -387,6 +387,39 @@ func c16Timestamp(c *Ctx, p *Prog, m *Model) {
 			}
 		}
 		r.Check(ok, "R16.4", "Entry.SetTimeFormat", p.FuncPos(st), "stores the layout given", "SetTimeFormat does not store the layout given")
+		// ... whatever it looks like: the only test applied to a candidate is "not empty" (a plausibility filter on the
+		// layout text rejects layouts of coarse precision or unusual elements that time.Format handles fine)
+		{
+			var other []string
+			for _, b := range st.Blocks {
+				iff := ifOf(b)
+				if iff == nil || !dependsOnParam(iff.Cond, st.Params[1]) {
+					continue
+				}
+				cond, _ := normCond(iff.Cond)
+				okC := false
+				switch x := cond.(type) {
+				case *ssa.BinOp:
+					if k, isC := x.Y.(*ssa.Const); isC && isStringT(x.X.Type()) && k.Value != nil && k.Value.Kind() == constant.String && constant.StringVal(k.Value) == "" {
+						okC = true
+					}
+					if lc, isL := x.X.(*ssa.Call); isL && isBuiltinCall(lc, "len") {
+						okC = true // len(layout) / len(elem) against a number: loop bound or emptiness
+					}
+					if _, isPhi := x.X.(*ssa.Phi); isPhi && !isStringT(x.X.Type()) {
+						okC = true // loop index against the length
+					}
+					if bx, isB := x.X.(*ssa.BinOp); isB && !isStringT(bx.Type()) {
+						okC = true
+					}
+				}
+				if !okC {
+					other = append(other, m.condDesc(cond)+" at "+p.Pos(instrPos(iff)))
+				}
+			}
+			r.Check(len(other) == 0, "R16.4", "Entry.SetTimeFormat:any-layout", p.FuncPos(st), "a candidate layout is only tested for emptiness",
+				"SetTimeFormat also decides on "+strings.Join(other, "; ")+": some non-empty layouts the caller gives are not stored, and the logger silently prints with another layout than the one that was set")
+		}
 		// ... and never "unset" in its place: a layout that was set stays pinned whatever the flags become later
 		for _, fs := range fieldStores(st) {
 			if fs.Field != "timeLayout" || fs.Base != ssa.Value(receiver(st)) {
